@@ -1,6 +1,7 @@
 package main
 
 import (
+	"sort"
 	"flag"
 	"fmt"
 	"os"
@@ -15,6 +16,20 @@ func main() {
 	switch os.Args[1] {
 	case "vc":
 		cmdVC(os.Args[2:])
+	case "check":
+		os.Exit(cmdCheck(os.Args[2:]))
+	case "list":
+		props, err := loadProps("/verif")
+		if err != nil {
+			fmt.Println(err)
+			os.Exit(2)
+		}
+		var ids []string
+		for id := range props {
+			ids = append(ids, id)
+		}
+		sort.Strings(ids)
+		fmt.Println(strings.Join(ids, "\n"))
 	default:
 		fmt.Fprintln(os.Stderr, "unknown command")
 		os.Exit(2)
